@@ -25,6 +25,7 @@ RULE = (
     "them the first performing step at which its start dependencies hold, consecutively apart from parent absence "
     "steps, with empty worker/facility lists throughout, and is FINISHED at the next step. Refusal: from a "
     "never-simulated or failed file a warning is issued and every attribute of the task is unchanged. "
+    'One case in three configures the same task object first from an older result at the same path, rewrites the file and configures again. '
     "Non-trivial = a successful configuration with D >= 2, unit ratio != 1, and a predecessor or a parent absence "
     "step inside the task's span; distinct by case hash."
 )
@@ -78,6 +79,7 @@ def _case(draw):
         "rm_abs": draw(st.booleans()),
         "backward": backward,
         "via_json": draw(st.integers(0, 2)) == 0,
+        "reconfigure": draw(st.integers(0, 2)) == 0,
         # the saved result may have been edited first: insert_absence_time_list(B), B overlapping the steps already present
         "insert": insert,
     }
@@ -141,6 +143,18 @@ def check(case):
     pp = hp.project
     pp.unit_timedelta = datetime.timedelta(minutes=case["u_par"])
     task = hp.tasks[k]
+    if case.get("reconfigure") and status == 1:
+        # what-if loop: the same task object was configured before, from an older result at the same path (other
+        # duration, other unit); the file has been rewritten since and the task is configured again
+        hold = S.build(sub)
+        hold.project.unit_timedelta = datetime.timedelta(minutes=case["u_sub"] + 7)
+        S.simulate(hold.project, dict(sub["opts"], abs=sorted(set(sub["opts"]["abs"]) ^ set([0, 1, 2])), max_time=200))
+        hold.project.write_simple_json(path)
+        with warnings.catch_warnings():
+            warnings.simplefilter("ignore")
+            task.set_all_attributes_from_json(path, remove_absence_time_list=case["rm_abs"])
+        ps.write_simple_json(path)
+        res.cls("task_configured_before_from_older_file")
     before = {a: getattr(task, a) for a in ATTRS}
     before["read_json_file"] = getattr(task, "read_json_file", "<missing>")
     with warnings.catch_warnings(record=True) as wlist:
